@@ -91,7 +91,6 @@ static parsec_termdet_module_t tdm;
 static parsec_lifo_t rd_origin;
 static parsec_remote_deps_t RD;
 static uint32_t rbits[NOUT][1], fwbits[1];
-static parsec_data_copy_t copies[NOUT]; static char payload[NOUT][8];
 /* MPI datatype handles are addresses of opaque library objects; defined here so that handle
  * comparisons are decidable (no MPI library is linked) */
 struct ompi_predefined_datatype_t { char opaque[8]; };
@@ -115,7 +114,7 @@ parsec_class_t parsec_list_item_t_class = { "parsec_list_item_t", NULL, vp_list_
                                             vp_li_ctors, vp_li_dtors, sizeof(parsec_list_item_t) };
 
 /* ------------------------------------------------------------------ stubs */
-static remote_dep_wire_activate_t wire_msg;   /* what was packed as the activation header */
+static uint32_t wire_omask, wire_tpid, wire_tcid;   /* activation header fields as packed */
 static uint32_t wire_eager;
 
 static int stub_pack_size(parsec_comm_engine_t *ce, int incount, parsec_datatype_t type, int *size)
@@ -129,8 +128,8 @@ static int stub_pack(parsec_comm_engine_t *ce, void *inbuf, int incount, parsec_
 {   /* contract: advances *position by the packed size; bytes are not modelled, the identity of
        the packed object is recorded instead */
     (void)outbuf; (void)outsize; int sz; stub_pack_size(ce, incount, type, &sz);
-    if (inbuf == (void *)&RD.msg) wire_msg = RD.msg;
-    for (int k = 0; k < NOUT; k++) if (inbuf == (void *)payload[k]) wire_eager |= 1u << k;
+    if (inbuf == (void *)&RD.msg) { wire_omask = (uint32_t)RD.msg.output_mask; wire_tpid = RD.msg.taskpool_id; wire_tcid = RD.msg.task_class_id; }
+    for (int k = 0; k < NOUT; k++) if (type == DTT(k)) wire_eager |= 1u << k;
     *position += sz; return 0;
 }
 static void deliver(int peer, char *addr)
@@ -140,8 +139,8 @@ static void deliver(int peer, char *addr)
     int rp = rel_of(peer);
     if (rp <= rel_of(cur)) bad_peer = 1;
     const uint32_t *ds = (const uint32_t *)((char *)addr + dep_count);
-    rx_cnt[rp]++; rx_from[rp] = cur; rx_omask[rp] = (uint32_t)wire_msg.output_mask;
-    rx_tpid[rp] = wire_msg.taskpool_id; rx_tcid[rp] = wire_msg.task_class_id;
+    rx_cnt[rp]++; rx_from[rp] = cur; rx_omask[rp] = wire_omask;
+    rx_tpid[rp] = wire_tpid; rx_tcid[rp] = wire_tcid;
     rx_nsz[rp] = ds[0];
     for (int i = 0; i < NOUT; i++) rx_sz[rp][i] = ds[1 + i];
     rx_eager[rp] = wire_eager; wire_eager = 0;
@@ -180,8 +179,11 @@ static int stub_oms(parsec_taskpool_t *t, int dst, parsec_remote_deps_t *rd) { (
 static int stub_omp(parsec_taskpool_t *t, int dst, char *b, int *p, int l) { (void)t; (void)dst; (void)b; (void)p; (void)l; return 0; }
 static int stub_ime(parsec_taskpool_t *t, const parsec_remote_deps_t *rd) { (void)t; (void)rd; return 0; }
 int parsec_taskpool_update_runtime_nbtask(parsec_taskpool_t *t, int32_t n) { (void)t; (void)n; return 0; }
-parsec_taskpool_t *parsec_taskpool_lookup(uint32_t id) { return id == tp.taskpool_id ? &tp : NULL; }
-
+parsec_taskpool_t *parsec_taskpool_lookup(uint32_t id)
+{   /* the only taskpool of the scenario; a lookup of any other id is a violation (checked, not assumed) */
+    VASSERTM(id == tp.taskpool_id, "the activation names the producer's taskpool");
+    return &tp;
+}
 /* successor iterator of the producer task class (what ptgpp generates from the JDF): output k
  * goes to one successor task on every rank of dest[k].  Same relation on every rank. */
 static void stub_iterate_successors(parsec_execution_stream_t *e, const parsec_task_t *t, uint32_t action_mask,
@@ -243,7 +245,7 @@ static parsec_ontask_iterate_t root_gather(parsec_execution_stream_t *e, const p
         out->rank_bits[pos] |= 1u << bit; out->deps_mask |= 1u << dp->dep_index;
         if (0 == out->count_bits) {
             int k = dp->dep_datatype_index;
-            out->data.data = &copies[k]; out->data.remote.src_datatype = out->data.remote.dst_datatype = DTT(k);
+            out->data.data = NULL; out->data.remote.src_datatype = out->data.remote.dst_datatype = DTT(k);
             out->data.remote.src_count = out->data.remote.dst_count = 1;
         }
         out->count_bits++;
@@ -311,7 +313,6 @@ int main(void)
         dep[k].dep_index = k; dep[k].dep_datatype_index = k; dep[k].task_class_id = 1;
         dep[k].belongs_to = &flow[k]; dep[k].flow = &flow_succ;
         tc.out[k] = &flow[k];
-        copies[k].device_private = payload[k]; copies[k].super.super.obj_reference_count = 1000;
     }
     root_task.task_class = &tc; root_task.taskpool = &tp; succ_task.task_class = &tc_succ; succ_task.taskpool = &tp;
     parsec_ce.pack_size = stub_pack_size; parsec_ce.pack = stub_pack;
@@ -372,8 +373,9 @@ int main(void)
         /* receiver: remote_dep_mpi_save_activate_cb up to remote_dep_get_datatypes */
         cur = me; ctx.my_rank = me;
         fresh_deps();
-        RD.msg = zero_msg; RD.msg.output_mask = rx_omask[rl]; RD.msg.taskpool_id = rx_tpid[rl];
-        RD.msg.task_class_id = (uint16_t)rx_tcid[rl]; RD.from = rx_from[rl];
+        VASSERTM(rx_tpid[rl] == tp.taskpool_id && rx_tcid[rl] == tc.task_class_id, "the activation header names the producer's taskpool and task class");
+        RD.msg = zero_msg; RD.msg.output_mask = rx_omask[rl]; RD.msg.taskpool_id = tp.taskpool_id;
+        RD.msg.task_class_id = tc.task_class_id; RD.from = rx_from[rl];
         uint32_t eager_words[NOUT + 1]; eager_words[0] = rx_nsz[rl];
         for (int i = 0; i < NOUT; i++) eager_words[1 + i] = rx_sz[rl][i];
         RD.eager_msg = eager_words;
@@ -386,7 +388,6 @@ int main(void)
         for (int k = 0; k < NOUT; k++) if (need & (1u << k))
             VASSERTM(seen_size[k] == (uint32_t)out_size(k), "receiver attributes to each consumed output the size of that output's payload");
         /* payload arrival (remote_dep_mpi_recv_activate / get_end: data movement not modelled) */
-        for (int k = 0; k < NOUT; k++) if (RD.incoming_mask & (1u << k)) RD.output[k].data.data = &copies[k];
         /* local release + propagation down the tree */
         remote_dep_release_incoming(&es, &RD, RD.incoming_mask);
         for (int k = 0; k < NOUT; k++)
